@@ -1,6 +1,7 @@
 package main
 
 import (
+	"regexp"
 	"strings"
 
 	"golang.org/x/tools/go/ssa"
@@ -194,6 +195,24 @@ func c20Round3(c *Ctx, ix *Index) {
 				ins = append(ins, call)
 			}
 		}
-		c.GuardedByAny("C20.ready", fn, "tx.seq >= seqHeap.seq", []string{`^\*param:tx\.seq >= \*.*senders\[\*param:tx\.sender\].*\.seq$`}, Ev{Name: "transaction inserted", Fn: fn, Ins: ins}, "a transaction below the sender's current sequence in the pool is expired, whatever state sequence its check reported")
+		// the heap whose current sequence is compared is the heap the transaction goes into (however it was obtained:
+		// a map look-up, a get-or-create helper), and it is the heap of the transaction's sender
+		for _, in := range ins {
+			call := in.(ssa.CallInstruction)
+			var heap ssa.Value
+			for _, a := range allArgs(call) {
+				if strings.HasSuffix(typeStr(a.Type()), "txpool.senderTxHeap") {
+					heap = a
+					break
+				}
+			}
+			if heap == nil {
+				c.Fail("C20.ready", fname(fn)+":tx.seq >= seqHeap.seq⊢transaction inserted", c.P.InstrPos(in), "the sender heap the transaction is inserted into was not found among the arguments of "+calleeName(call))
+				continue
+			}
+			hs := vstr(heap)
+			c.Check(strings.Contains(hs, "*param:tx.sender"), "C20.ready", fname(fn)+":inserted into the heap of the transaction's sender", c.P.InstrPos(in), "the heap is obtained for tx.sender", "the sender heap a transaction is inserted into is not looked up by the transaction's sender ("+vstrShort(heap)+")")
+			c.GuardedByAny("C20.ready", fn, "tx.seq >= seqHeap.seq", []string{`^\*param:tx\.seq >= \*+` + regexp.QuoteMeta(hs) + `\.seq$`}, Ev{Name: "transaction inserted", Fn: fn, Ins: []ssa.Instruction{in}}, "a transaction below the sender's current sequence in the pool is expired, whatever state sequence its check reported")
+		}
 	}
 }
